@@ -7,7 +7,8 @@
    timers, and all arrival sequences with priorities and TTLs. *)
 From Coq Require Import List ZArith Bool Lia Sorting.Sorted.
 From Verif Require Import C10.Model C10.Proofs C10.Proofs2 C10.Proofs3 C10.Plugin C10.PluginProofs
-  C10.Split C10.SplitProofs.
+  C10.Split C10.SplitProofs C10.Exact C10.Release C10.Counts C10.Ttl C10.Bridge
+  C10.Sized C10.SizedProofs C10.PluginLift C10.Timer C10.Observe.
 Import ListNotations.
 Open Scope Z_scope.
 
@@ -149,14 +150,15 @@ Proof. intros. apply trace_reject_ok. Qed.
 Print Assumptions C10_reject_only_when_full.
 
 (* With a monotone clock a waiter expires only when at least its TTL has
-   elapsed since its arrival. *)
+   elapsed since its arrival.  (No condition on the window size: the earlier
+   form of this theorem carried 0 < wsize c, which the proof did not need.) *)
 Theorem C10_expire_only_after_ttl : forall c t0 acts,
-  0 < wsize c -> monotone t0 acts = true ->
+  monotone t0 acts = true ->
   Forall (fun tr => forall id, expires tr id = true ->
             exists r, find id (reqs (fst (fst tr))) = Some r /\
                       arr r + ttl r <= act_now (snd (fst tr)))
          (trace c (init c t0) acts).
-Proof. intros c t0 acts W M. apply (expires_after_ttl c acts (init c t0) t0 W M (AT_init c t0)). Qed.
+Proof. intros c t0 acts M. apply (expires_after_ttl_mono c acts (init c t0) t0 M (TT_init c t0)). Qed.
 Print Assumptions C10_expire_only_after_ttl.
 
 Example C10_expire_nontrivial :
@@ -221,23 +223,115 @@ Theorem C10_full_refuted_barging :
 Proof. vm_compute. repeat split. Qed.
 Print Assumptions C10_full_refuted_barging.
 
-(* Outside the two findings the full property holds: on every schedule in which
-   no pass runs while a waiter is between Unlock and the select (okP) and no
-   arrival runs its locked part on a stale window (okQ), no waiter is ever
-   passed over (hence none whose turn had come expires), and refusals at the
-   door happen only on a full queue.  okP/okQ are decidable and are what the
-   monitor's classifier evaluates on the executed schedule. *)
+(* Outside the two findings the full property holds.  The side conditions are
+   the literal negations of the findings (Model.v):
+     no_lost_handoff  no pass pops the entry of a request that is between Unlock
+                      and the select                                  (not F-C10)
+     no_barging       no arrival that finds the window stale is given a slot
+                      while some request waits                        (not F-C10b)
+   On every schedule on which both hold at every step, no waiter is ever passed
+   over (hence none whose turn had come expires), and refusals at the door
+   happen only on a full queue.  Both conditions are decidable and are what the
+   monitor's classifier evaluates, event by event, on the executed schedule. *)
 Theorem C10_holds_outside_findings : forall c t0 acts,
-  Forall (fun tr => okP tr = true /\ okQ c tr = true) (trace c (init c t0) acts) ->
+  Forall (fun tr => no_lost_handoff c tr = true /\ no_barging c tr = true)
+         (trace c (init c t0) acts) ->
   Forall (fun tr => forall id, passed_over c tr id = false) (trace c (init c t0) acts) /\
   strand c (trace c (init c t0) acts) = false /\
   Forall (fun tr => reject_ok c tr = true) (trace c (init c t0) acts).
 Proof.
   intros c t0 acts F.
-  pose proof (trace_outside c acts (init c t0) (GI_init c t0) F) as P.
+  pose proof (trace_outside_exact c acts (init c t0) (GI_init c t0) F) as P.
   split; [exact P|]. split; [now apply strand_false|apply trace_reject_ok].
 Qed.
 Print Assumptions C10_holds_outside_findings.
+
+(* the same for every prefix: up to (and including) step n nobody is passed
+   over unless one of the two findings occurred at or before step n.  This is
+   the form the monitor uses: a strand is filed under a known finding only if
+   an F-C10 / F-C10b event precedes the step at which the waiter was passed
+   over. *)
+Theorem C10_no_pass_over_before_first_finding : forall c t0 acts n,
+  Forall (fun tr => no_lost_handoff c tr = true /\ no_barging c tr = true)
+         (firstn n (trace c (init c t0) acts)) ->
+  Forall (fun tr => forall id, passed_over c tr id = false)
+         (firstn n (trace c (init c t0) acts)).
+Proof.
+  intros c t0 acts n F. rewrite trace_firstn in *.
+  exact (proj1 (C10_holds_outside_findings c t0 (firstn n acts) F)).
+Qed.
+Print Assumptions C10_no_pass_over_before_first_finding.
+
+(* okP / okQ are sufficient for the exact conditions (not necessary) ... *)
+Theorem C10_exact_conditions_are_weaker : forall c tr,
+  (okP tr = true -> no_lost_handoff c tr = true) /\
+  (okQ c tr = true -> no_barging c tr = true).
+Proof. intros c tr. split; [apply okP_no_lost_handoff|apply okQ_no_barging]. Qed.
+Print Assumptions C10_exact_conditions_are_weaker.
+
+(* ... so the earlier form of the theorem (side conditions okP / okQ) follows *)
+Corollary C10_holds_outside_findings_okP_okQ : forall c t0 acts,
+  Forall (fun tr => okP tr = true /\ okQ c tr = true) (trace c (init c t0) acts) ->
+  Forall (fun tr => forall id, passed_over c tr id = false) (trace c (init c t0) acts) /\
+  strand c (trace c (init c t0) acts) = false /\
+  Forall (fun tr => reject_ok c tr = true) (trace c (init c t0) acts).
+Proof. intros c t0 acts F. apply C10_holds_outside_findings. now apply Forall_ok_exact. Qed.
+Print Assumptions C10_holds_outside_findings_okP_okQ.
+
+(* the exact forms of C10_no_strand_if_parked_at_passes and
+   C10_no_barging_if_tick_first *)
+Theorem C10_no_strand_without_lost_handoff : forall c t0 acts,
+  Forall (fun tr => no_lost_handoff c tr = true) (trace c (init c t0) acts) ->
+  Forall (fun tr => forall id now, snd (fst tr) = Tick now -> passed_over c tr id = false)
+         (trace c (init c t0) acts).
+Proof. intros c t0 acts F. apply trace_ticks_outside_exact; [apply HA_init|intros r []|exact F]. Qed.
+Print Assumptions C10_no_strand_without_lost_handoff.
+
+Theorem C10_no_slot_to_newcomer_outside_findings : forall c t0 acts,
+  Forall (fun tr => no_lost_handoff c tr = true /\ no_barging c tr = true)
+         (trace c (init c t0) acts) ->
+  forall s id p t l now s' r,
+  In (s, EnqLocked id p t l now, s') (trace c (init c t0) acts) ->
+  find id (reqs s) = None -> phase_of s' id = Some Slot ->
+  In r (reqs s) -> live r = false.
+Proof. intros c t0 acts F. apply (trace_no_barging_exact c acts (init c t0) (GI_init c t0) F). Qed.
+Print Assumptions C10_no_slot_to_newcomer_outside_findings.
+
+(* A violation of no_lost_handoff IS a lost hand-off: the pass removes from
+   the heap the entry of a request that is, and stays, between Unlock and the
+   select (it will park outside the heap: no later pass can signal it). *)
+Theorem C10_lost_handoff_is_loss : forall c t0 acts now,
+  let s := run c (init c t0) acts in
+  let s' := fst (tick c s now) in
+  no_lost_handoff c (s, Tick now, s') = false ->
+  exists e, In e (heap s) /\ is_unlocked s (eid e) = true /\
+            is_unlocked s' (eid e) = true /\ ~ In e (heap s').
+Proof.
+  intros c t0 acts now s s' V.
+  destruct (HAN_run c acts (init c t0) (HA_init c t0) (HN_init c t0)) as [H N].
+  exact (lost_handoff_is_loss c s now H N V).
+Qed.
+Print Assumptions C10_lost_handoff_is_loss.
+
+(* What the monitor evaluates.  It cannot look into the heap; of a pass it sees
+   who was between Unlock and select meanwhile, who was released, and how much
+   quota of the window is used afterwards.  [lost_observed] (Model.v) is that
+   view: some unparked request with an entry in the heap such that after the
+   pass quota is still free or somebody of worse (priority, arrival) was
+   released.  When the keys in the heap are distinct (equal (priority,
+   timestamp) pairs are never generated) it is exactly "not no_lost_handoff".
+   [no_barging] is observable as it stands (stale window = no arrival / pass
+   has looked at the clock since the boundary; slot; somebody waits). *)
+Theorem C10_lost_handoff_observable : forall c t0 acts now,
+  let s := run c (init c t0) acts in
+  let tr := (s, Tick now, fst (tick c s now)) in
+  NoDup (map ekey (heap s)) ->
+  lost_observed c tr = negb (no_lost_handoff c tr).
+Proof.
+  intros c t0 acts now s tr Dk. apply lost_observed_iff; [|exact Dk].
+  apply HA_run. apply HA_init.
+Qed.
+Print Assumptions C10_lost_handoff_observable.
 
 (* the side conditions are satisfiable on a history with a roll-over, a
    release in priority order, a queue-full refusal and a genuine expiry *)
@@ -246,11 +340,34 @@ Example C10_holds_outside_nontrivial :
   let acts := [EnqLocked 1 0 0 500 0; EnqLocked 2 1 1 1500 1; Park 2 1; EnqLocked 3 0 2 1500 2; Park 3 2;
                EnqLocked 4 0 3 1500 3; Tick 1000; Return 3 1000; Ttl 2 1501; Return 2 1501] in
   (forallb (fun tr => okP tr && okQ c tr) (trace c (init c 0) acts),
+   forallb (fun tr => no_lost_handoff c tr && no_barging c tr) (trace c (init c 0) acts),
    strand c (trace c (init c 0) acts),
    map result_of (reqs (run c (init c 0) acts))) =
-  (true, false,
+  (true, true, false,
    [(1, Some (true, 0)); (2, Some (false, 1501)); (3, Some (true, 1000)); (4, Some (false, 3))]).
 Proof. vm_compute. reflexivity. Qed.
+
+(* The exact conditions hold on schedules okP / okQ reject: (a) a pass while
+   request 2 is between Unlock and select that pops nothing (quota used);
+   (b) the first arrival of a new window on an idle queue, before the pass;
+   (c) a stale arrival that is NOT given a slot although somebody waits
+   (quota 0 is the only way) — and on the two witnesses exactly one step
+   violates exactly one condition: the Tick that pops request 2 (index 2 of
+   lost_handoff), the arrival of request 3 (index 4 of barging). *)
+Example C10_exact_conditions_located :
+  let ex c acts := map (fun tr => (no_lost_handoff c tr, no_barging c tr)) (trace c (init c 0) acts) in
+  let ok c acts := (forallb okP (trace c (init c 0) acts), forallb (okQ c) (trace c (init c 0) acts),
+                    forallb (fun tr => no_lost_handoff c tr && no_barging c tr) (trace c (init c 0) acts),
+                    strand c (trace c (init c 0) acts)) in
+  ok cfg1 [EnqLocked 1 0 0 5000 0; EnqLocked 2 0 1 5000 1; Tick 500; Park 2 500; Tick 1000; Return 2 1000]
+    = (false, true, true, false) /\
+  ok cfg1 [EnqLocked 1 0 0 5000 0; EnqLocked 2 0 1000 5000 1000] = (true, false, true, false) /\
+  ex cfg1 lost_handoff =
+    [(true, true); (true, true); (false, true); (true, true); (true, true); (true, true); (true, true); (true, true)] /\
+  ex cfg1 barging =
+    [(true, true); (true, true); (true, true); (true, true); (true, false); (true, true); (true, true); (true, true);
+     (true, true)].
+Proof. vm_compute. repeat split. Qed.
 
 (* ================================================================== *)
 (* Plugin layer: StrategyBasedQueuePlugin (Plugin.v).                  *)
@@ -555,3 +672,509 @@ Example C10_pass_in_the_gap_outcomes :
      [EnqLocked 1 0 0 900 0; EnqLocked 2 0 999 900 999; Park 2 999; Tick 1000; Return 2 1000]))) =
     [(1, Some (true, 0)); (2, Some (true, 1000))].
 Proof. vm_compute. repeat split. Qed.
+
+(* ================================================================== *)
+(* What a pass releases (positive form), every schedule.               *)
+
+(* A pass hands the slots it has — quota of the (possibly new) window minus
+   what is used — to the first parked entries of the heap, in heap order, no
+   more and no fewer: rel = firstn free_slots parked_entries. *)
+Theorem C10_pass_releases_first_parked : forall c t0 acts now,
+  let s := run c (init c t0) acts in
+  snd (tick c s now) = firstn (free_slots c s now) (parked_entries s) /\
+  length (snd (tick c s now)) = Nat.min (free_slots c s now) (length (parked_entries s)) /\
+  (forall e, In e (snd (tick c s now)) -> phase_of (fst (tick c s now)) (eid e) = Some Released).
+Proof.
+  intros c t0 acts now s.
+  destruct (HAN_run c acts (init c t0) (HA_init c t0) (HN_init c t0)) as [H N]. fold s in H, N.
+  split; [now apply tick_firstn|]. split; [now apply tick_count|].
+  intros e I. now apply tick_rel_released.
+Qed.
+Print Assumptions C10_pass_releases_first_parked.
+
+(* "is released": a pass that has a slot to give — in particular every pass on
+   a new window with a positive quota — releases the parked request of best
+   (priority, arrival) among the parked requests whose entry is in the heap. *)
+Theorem C10_pass_releases_best_parked : forall c t0 acts now r,
+  let s := run c (init c t0) acts in
+  counter (roll c s now) < quota c ->
+  In r (reqs s) -> ph r = Parked -> In (entry_of r) (heap s) ->
+  (forall r', In r' (reqs s) -> ph r' = Parked -> In (entry_of r') (heap s) -> r' <> r ->
+              key_ltb (rkey r) (rkey r') = true) ->
+  phase_of (fst (tick c s now)) (rid r) = Some Released.
+Proof.
+  intros c t0 acts now r s Q I P Ih B.
+  destruct (HAN_run c acts (init c t0) (HA_init c t0) (HN_init c t0)) as [H N]. fold s in H, N.
+  exact (proj2 (tick_releases_best c s now r H N Q I P Ih B)).
+Qed.
+Print Assumptions C10_pass_releases_best_parked.
+
+Lemma new_window_has_slot : forall c s now,
+  stale c s now = true -> 0 < quota c -> counter (roll c s now) < quota c.
+Proof. intros c s now St Q. unfold roll. rewrite St. simpl. exact Q. Qed.
+
+(* Outside the two findings every waiter is in the heap, so: a pass on a new
+   window (quota > 0) releases THE best parked waiter — the positive half of
+   "a waiting request whose turn has come is released". *)
+Theorem C10_pass_releases_best_waiter_outside_findings : forall c t0 acts now r,
+  Forall (fun tr => no_lost_handoff c tr = true /\ no_barging c tr = true)
+         (trace c (init c t0) acts) ->
+  let s := run c (init c t0) acts in
+  stale c s now = true -> 0 < quota c ->
+  In r (reqs s) -> ph r = Parked ->
+  (forall r', In r' (reqs s) -> ph r' = Parked -> r' <> r -> key_ltb (rkey r) (rkey r') = true) ->
+  phase_of (fst (tick c s now)) (rid r) = Some Released.
+Proof.
+  intros c t0 acts now r F s St Q I P B.
+  destruct (trace_GI_exact c acts (init c t0) (GI_init c t0) F) as [_ (_ & L & _)]. fold s in L.
+  apply C10_pass_releases_best_parked; auto.
+  - now apply new_window_has_slot.
+  - apply L; [exact I|]. unfold live. now rewrite P.
+Qed.
+Print Assumptions C10_pass_releases_best_waiter_outside_findings.
+
+Example C10_pass_releases_nontrivial :
+  let c := {| quota := 2; wsize := 1000; qsize := 5 |} in
+  let s := run c (init c 0) [EnqLocked 1 0 0 9000 0; EnqLocked 2 0 1 9000 1;
+                             EnqLocked 3 2 2 9000 2; Park 3 2; EnqLocked 4 1 3 300 3; Park 4 3;
+                             EnqLocked 5 1 4 9000 4; Park 5 4; EnqLocked 6 1 5 9000 5; Park 6 5;
+                             Ttl 4 303] in
+  (* 4 expired (its entry stays in the heap), 5 is the best parked waiter *)
+  (stale c s 1000, free_slots c s 1000, map eid (heap s), map eid (parked_entries s),
+   map eid (snd (tick c s 1000)), phase_of (fst (tick c s 1000)) 5) =
+  (true, 2%nat, [4; 5; 6; 3], [5; 6; 3], [5; 6], Some Released).
+Proof. vm_compute. reflexivity. Qed.
+
+(* ---- order, every schedule, every pass ---- *)
+
+(* No pass serves a request while a parked request of strictly better
+   (priority, arrival) whose entry is in the heap is left behind: whoever is
+   better than a released one is released by the same pass. *)
+Theorem C10_order_in_heap : forall c t0 acts now e e',
+  let s := run c (init c t0) acts in
+  In e (snd (tick c s now)) -> In e' (parked_entries s) ->
+  key_ltb (ekey e') (ekey e) = true ->
+  In e' (snd (tick c s now)) /\ phase_of (fst (tick c s now)) (eid e') = Some Released.
+Proof.
+  intros c t0 acts now e e' s I I' Lt.
+  destruct (HAN_run c acts (init c t0) (HA_init c t0) (HN_init c t0)) as [H N]. fold s in H, N.
+  now apply (tick_no_worse_first c s now e e').
+Qed.
+Print Assumptions C10_order_in_heap.
+
+(* The order requirement across passes and for ALL waiters (in the heap or
+   not) does not hold: after a lost hand-off a later pass serves a worse
+   request while the lost one still waits. *)
+Definition C10_order_across_passes : Prop :=
+  forall c t0 acts, monotone t0 acts = true ->
+    Forall (fun tr => forall id, served_worse tr id = false) (trace c (init c t0) acts).
+
+(* request 2 loses its hand-off at 1000 (popped while unparked, the slot of
+   [1000,2000) stays free) and parks outside the heap; 3 arrives in that window
+   and takes the free slot; 4 queues and is released by the pass at 2000 while
+   2 — earlier arrival, same priority — is still waiting *)
+Definition worse_first : list action :=
+  [EnqLocked 1 0 0 9000 0; EnqLocked 2 0 1 9000 1; Tick 1000; Park 2 1000;
+   EnqLocked 3 0 1001 9000 1001; EnqLocked 4 0 1002 9000 1002; Park 4 1002; Tick 2000].
+
+Theorem C10_order_across_passes_refuted : ~ C10_order_across_passes.
+Proof.
+  intro H. specialize (H cfg1 0 worse_first eq_refl).
+  rewrite Forall_forall in H.
+  assert (I : In (nth 7 (trace cfg1 (init cfg1 0) worse_first) (init cfg1 0, Tick 0, init cfg1 0))
+                 (trace cfg1 (init cfg1 0) worse_first)) by (apply nth_In; vm_compute; lia).
+  specialize (H _ I 2). vm_compute in H. discriminate.
+Qed.
+Print Assumptions C10_order_across_passes_refuted.
+
+(* outside F-C10 it holds: no pass serves a worse request while a better
+   waiter (parked or not) stays *)
+Theorem C10_order_across_passes_without_lost_handoff : forall c t0 acts,
+  Forall (fun tr => no_lost_handoff c tr = true) (trace c (init c t0) acts) ->
+  Forall (fun tr => forall id, best_live (snd tr) id = true -> served_worse tr id = false)
+         (trace c (init c t0) acts).
+Proof.
+  intros c t0 acts F. pose proof (C10_no_strand_without_lost_handoff c t0 acts F) as P.
+  rewrite Forall_forall in *. intros [[s a] s'] I id B. specialize (P _ I id).
+  destruct a as [| |now| |]; try reflexivity. specialize (P now eq_refl).
+  simpl in *. unfold passed_over in P. rewrite B in P.
+  destruct (live_in s id); [|reflexivity]. destruct (live_in s' id); [|reflexivity].
+  simpl in *. apply orb_false_iff in P. exact (proj2 P).
+Qed.
+Print Assumptions C10_order_across_passes_without_lost_handoff.
+
+(* Equal (priority, timestamp): the model's heap is stable — of two entries
+   with the same key the one pushed first is popped first.  container/heap
+   promises no such thing; requests with equal keys are never generated by the
+   harness, the spec functions ([best_live], [passed_over]) use the strict
+   order and are insensitive to it, but the theorems are about THIS tie order. *)
+Example C10_ties_are_fifo_by_push :
+  let c := {| quota := 1; wsize := 1000; qsize := 5 |} in
+  let s := run c (init c 0) [EnqLocked 1 0 0 9000 0; EnqLocked 2 0 7 9000 1; Park 2 1;
+                             EnqLocked 3 0 7 9000 2; Park 3 2; EnqLocked 4 0 7 9000 3; Park 4 3] in
+  (map eid (heap s), map eid (snd (tick c s 1000))) = ([2; 3; 4], [2]).
+Proof. vm_compute. reflexivity. Qed.
+
+(* ================================================================== *)
+(* requestCounts: what "the queue was full" means.                     *)
+
+(* On every schedule totalQueueCount() = requests blocked in Enqueue + requests
+   already answered (released / expired) that have not yet re-taken the mutex
+   to decrement. *)
+Theorem C10_count_is_waiters_plus_returning : forall c t0 acts,
+  let s := run c (init c t0) acts in
+  qcount (reqs s) = waiters (reqs s) + returning (reqs s).
+Proof.
+  intros c t0 acts s. apply count_split.
+  - apply (CP_run c acts (init c t0) (CP_init c t0)).
+  - destruct (SB_run c acts (init c t0) (SB_init c t0)) as [_ L]. exact L.
+Qed.
+Print Assumptions C10_count_is_waiters_plus_returning.
+
+(* so a request is refused at the door only when waiters + returning requests
+   reach the queue size (NOT: only when that many still wait) *)
+Theorem C10_reject_only_when_full_reading : forall c t0 acts1 id p t l now,
+  let s := run c (init c t0) acts1 in
+  find id (reqs s) = None ->
+  phase_of (exec c s (EnqLocked id p t l now)) id = Some Rejected ->
+  qsize c <= waiters (reqs s) + returning (reqs s).
+Proof.
+  intros c t0 acts1 id p t l now s Fd PR.
+  pose proof (reject_ok_exec c s (EnqLocked id p t l now)) as R. simpl in R.
+  rewrite Fd, PR in R. apply Z.leb_le in R.
+  pose proof (C10_count_is_waiters_plus_returning c t0 acts1) as E. cbv zeta in E. fold s in E. lia.
+Qed.
+Print Assumptions C10_reject_only_when_full_reading.
+
+(* the two readings differ: request 3 is refused although nobody waits any more
+   (request 2 was released at 1000 and has not yet returned) *)
+Example C10_reject_full_reading_nontrivial :
+  let c := {| quota := 1; wsize := 1000; qsize := 1 |} in
+  let s := run c (init c 0) [EnqLocked 1 0 0 9000 0; EnqLocked 2 0 1 9000 1; Park 2 1; Tick 1000;
+                             EnqLocked 3 0 1000 9000 1000] in
+  (map result_of (reqs s), waiters (reqs s), returning (reqs s), qcount (reqs s)) =
+  ([(1, Some (true, 0)); (2, None); (3, Some (false, 1000))], 0, 1, 1).
+Proof. vm_compute. reflexivity. Qed.
+
+(* ================================================================== *)
+(* The correspondence functions evaluate what the theorems are about.  *)
+
+(* [run_obs] (strict replay, evaluated by suites seq / forced / atomic) against
+   [run] / [trace] (the theorems): the sentinel -1 appears exactly when some
+   action is disabled at its turn; otherwise the final state IS [run] and the
+   counts are those of the states along [trace]. *)
+Theorem C10_run_obs_is_run : forall c s acts,
+  (In (-1) (fst (run_obs c s acts)) <-> enabled c s acts = false) /\
+  (enabled c s acts = true ->
+   run_obs c s acts = (counts_of c s acts, run c s acts)).
+Proof. intros c s acts. split; [apply run_obs_sentinel|apply run_obs_enabled]. Qed.
+Print Assumptions C10_run_obs_is_run.
+
+(* an accepted case (counts as observed are never negative) is a schedule of
+   enabled actions on which [run] reproduces the observed results *)
+Theorem C10_accepted_case_is_a_run : forall q w n t0 acts counts results,
+  Forall obs_ok counts ->
+  run_case ((q, w, n), t0, acts, counts, results) = None ->
+  let c := {| quota := q; wsize := w; qsize := n |} in
+  enabled c (init c t0) acts = true /\
+  eq_zs (counts_of c (init c t0) acts) counts = true /\
+  eq_ress (map result_of (reqs (run c (init c t0) acts))) results = true.
+Proof. exact run_case_accepts. Qed.
+Print Assumptions C10_accepted_case_is_a_run.
+
+(* the same for the plugin suite: [prun_obs] against [prun] *)
+Theorem C10_prun_obs_is_prun : forall tv v s acts,
+  (In (-1) (fst (prun_obs tv v s acts)) <-> penabled tv v s acts = false) /\
+  (penabled tv v s acts = true ->
+   prun_obs tv v s acts = (pcounts_of tv v s acts, prun tv v s acts)).
+Proof. intros tv v s acts. split; [apply prun_obs_sentinel|apply prun_obs_enabled]. Qed.
+Print Assumptions C10_prun_obs_is_prun.
+
+Theorem C10_accepted_plugin_case_is_a_run : forall tbl cacts counts results,
+  Forall obs_ok counts ->
+  run_plugin (tbl, cacts, counts, results) = None ->
+  exists acts,
+    expand_all tbl cacts = Some acts /\
+    penabled code_ttl code_variant pinit acts = true /\
+    eq_zs (pcounts_of code_ttl code_variant pinit acts) counts = true /\
+    fst (prun_obs code_ttl code_variant pinit acts) = pcounts_of code_ttl code_variant pinit acts /\
+    snd (prun_obs code_ttl code_variant pinit acts) = prun code_ttl code_variant pinit acts.
+Proof. exact run_plugin_accepts. Qed.
+Print Assumptions C10_accepted_plugin_case_is_a_run.
+
+Example C10_run_obs_nontrivial :
+  let c := {| quota := 1; wsize := 1000; qsize := 2 |} in
+  let good := [EnqLocked 1 0 0 500 0; EnqLocked 2 0 1 500 1; Park 2 1; Tick 1000; Return 2 1000] in
+  let bad := [EnqLocked 1 0 0 500 0; Park 1 0] in
+  (enabled c (init c 0) good, fst (run_obs c (init c 0) good),
+   enabled c (init c 0) bad, fst (run_obs c (init c 0) bad)) =
+  (true, [0; 1; 1; 1; 0], false, [0; -1]).
+Proof. vm_compute. reflexivity. Qed.
+
+(* ================================================================== *)
+(* One queue, queue size per call (Sized.v).                           *)
+(*                                                                    *)
+(* Enqueue takes maxQueueSize as an argument; every action of a sized  *)
+(* schedule carries the size its call passed.  A schedule of Model.v   *)
+(* is the special case of one size.                                    *)
+
+Theorem C10_sized_generalises : forall c t0 acts,
+  qrun c (init c t0) (sized (qsize c) acts) = run c (init c t0) acts /\
+  map snd (qtrace c (init c t0) (sized (qsize c) acts)) = trace c (init c t0) acts.
+Proof. intros. split; [apply qrun_sized|apply qtrace_sized]. Qed.
+Print Assumptions C10_sized_generalises.
+
+(* the number of waiters never exceeds the largest queue size any call passed;
+   every single admission / refusal follows the size of ITS call *)
+Theorem C10_size_bound_per_call : forall c t0 l,
+  let s := qrun c (init c t0) l in
+  qcount (reqs s) <= Z.max 0 (max_qsize l) /\ waiters (reqs s) <= qcount (reqs s) /\
+  Forall (fun qt => admit_ok qt = true) (qtrace c (init c t0) l).
+Proof.
+  intros c t0 l s.
+  pose proof (SB_qrun c (max_qsize l) l (init c t0) (sizes_le_max l)
+                (SB_init (with_qsize c (max_qsize l)) t0)) as [B L].
+  split; [exact B|]. split; [now apply waiters_le_qcount|apply qtrace_admit_ok].
+Qed.
+Print Assumptions C10_size_bound_per_call.
+
+Example C10_size_bound_per_call_nontrivial :
+  let c := {| quota := 1; wsize := 1000; qsize := 0 |} in
+  let l := [(3, EnqLocked 1 0 0 500 0); (3, EnqLocked 2 0 1 500 1); (3, EnqLocked 3 0 2 500 2);
+            (1, EnqLocked 4 0 3 500 3); (3, EnqLocked 5 0 4 500 4); (3, EnqLocked 6 0 5 500 5)] in
+  (* the call with size 1 is refused (2 wait), the next call with size 3 is admitted, then full *)
+  (max_qsize l, qcount (reqs (qrun c (init c 0) l)), map result_of (reqs (qrun c (init c 0) l))) =
+  (3, 3, [(1, Some (true, 0)); (2, None); (3, None); (4, Some (false, 3)); (5, None); (6, Some (false, 5))]).
+Proof. vm_compute. reflexivity. Qed.
+
+(* release bound, order and the no-strand theorem do not depend on the size *)
+Theorem C10_sized_release_bound : forall c t0 l w,
+  count_win w (log (qrun c (init c t0) l)) <= Z.max 0 (quota c).
+Proof. intros. apply rb_all. apply RB_qrun. apply RB_init. Qed.
+Print Assumptions C10_sized_release_bound.
+
+Theorem C10_sized_holds_outside_findings : forall c t0 l,
+  Forall (fun qt => no_lost_handoff c (snd qt) = true /\ no_barging c (snd qt) = true)
+         (qtrace c (init c t0) l) ->
+  Forall (fun qt => forall id, passed_over c (snd qt) id = false) (qtrace c (init c t0) l) /\
+  strand c (map snd (qtrace c (init c t0) l)) = false.
+Proof.
+  intros c t0 l F.
+  destruct (qtrace_outside_exact c l (init c t0) (GI_init c t0) F) as [P _].
+  split; [exact P|]. apply strand_false. apply Forall_forall. intros tr I.
+  apply in_map_iff in I. destruct I as [qt [E I]]. subst tr.
+  rewrite Forall_forall in P. now apply P.
+Qed.
+Print Assumptions C10_sized_holds_outside_findings.
+
+(* ================================================================== *)
+(* Plugin layer: the queue-level theorems, per queue instance.         *)
+
+(* Every queue instance the plugin ever constructs for a key is the queue of
+   Model.v, constructed at the instant of a lookup (or store) of the schedule
+   and run on a sized schedule each of whose actions is the queue-level content
+   ([kq_of]) of an action of that key in the plugin-level schedule: the locked
+   part of Enqueue with the queue size, priority and TTL of that very call,
+   Park / Ttl / Return of a request, a roll-over pass. *)
+Theorem C10_plugin_instance_is_queue_run : forall tv v acts k s,
+  In s (insts (pget k (prun tv v pinit acts))) ->
+  exists t0 l,
+    s = qrun (ccfg k 0) (init (ccfg k 0) t0) l /\
+    (exists a, In (PK k a) acts /\ kbuilt a = Some t0) /\
+    Forall (fun qa => exists a, In (PK k a) acts /\ kq_of tv a = Some qa) l.
+Proof.
+  intros tv v acts k s I. rewrite pget_prun, pget_pinit in I.
+  pose proof (REP_insts tv v k (proj k acts)) as F. rewrite Forall_forall in F.
+  destruct (F s I) as [t0 [l [E [[a [Ia Ba]] O]]]]. exists t0, l. split; [exact E|]. split.
+  - exists a. split; [now apply proj_In|exact Ba].
+  - eapply Forall_impl; [|exact O]. intros qa [b [Ib Qb]]. exists b. split; [now apply proj_In|exact Qb].
+Qed.
+Print Assumptions C10_plugin_instance_is_queue_run.
+
+(* (clause 3 at plugin level) whatever queue sizes the calls of a remedy pass:
+   no queue of the remedy ever counts more than the largest of them, and every
+   request blocked in Enqueue is counted; at HEAD (one queue per remedy) the
+   bound holds for the remedy as a whole *)
+Theorem C10_plugin_size_bound : forall tv v acts k M,
+  (forall rid p hdrs t now, In (PK k (KEnq rid p hdrs t now)) acts -> p_qsize p <= M) ->
+  (forall s, In s (insts (pget k (prun tv v pinit acts))) ->
+     qcount (reqs s) <= Z.max 0 M /\ waiters (reqs s) <= qcount (reqs s)) /\
+  (v = Atomic -> kcount (insts (pget k (prun tv v pinit acts))) <= Z.max 0 M).
+Proof.
+  intros tv v acts k M Le.
+  assert (Le' : forall rid p hdrs t now, In (KEnq rid p hdrs t now) (proj k acts) -> p_qsize p <= M).
+  { intros rid p hdrs t now I. apply (Le rid p hdrs t now). now apply proj_In. }
+  split.
+  - intros s I. rewrite pget_prun, pget_pinit in I. now apply (size_bound_insts tv v k (proj k acts) M s).
+  - intro E. subst v. rewrite pget_prun, pget_pinit.
+    pose proof (ONE_length _ (ONE_krun tv k (proj k acts))) as L1.
+    pose proof (size_bound_insts tv Atomic k (proj k acts) M) as SBi.
+    destruct (insts (krun tv Atomic k kinit (proj k acts))) as [|s [|s2 t]]; simpl in *; try lia.
+    destruct (SBi s Le' (or_introl eq_refl)) as [B _]. lia.
+Qed.
+Print Assumptions C10_plugin_size_bound.
+
+(* order and "is released", for every queue instance of every remedy: a pass
+   (KTick) releases the first free_slots parked entries of that queue, in
+   (priority, arrival) order; the best parked request whose entry is in the
+   heap is among them whenever the pass has a slot *)
+Theorem C10_plugin_pass_releases : forall tv v acts k s now,
+  In s (insts (pget k (prun tv v pinit acts))) ->
+  let c := ccfg k 0 in
+  snd (tick c s now) = firstn (free_slots c s now) (parked_entries s) /\
+  StronglySorted kle (snd (tick c s now)) /\
+  (forall e, In e (snd (tick c s now)) -> phase_of (fst (tick c s now)) (eid e) = Some Released) /\
+  (forall r, counter (roll c s now) < quota c ->
+     In r (reqs s) -> ph r = Parked -> In (entry_of r) (heap s) ->
+     (forall r', In r' (reqs s) -> ph r' = Parked -> In (entry_of r') (heap s) -> r' <> r ->
+                 key_ltb (rkey r) (rkey r') = true) ->
+     phase_of (fst (tick c s now)) (rid r) = Some Released).
+Proof.
+  intros tv v acts k s now I c. rewrite pget_prun, pget_pinit in I.
+  destruct (HA_HN_insts tv v k (proj k acts) s I) as [H N].
+  split; [now apply tick_firstn|]. split; [exact (proj1 (proj2 (tick_order c s now H)))|].
+  split; [intros e Ie; now apply tick_rel_released|].
+  intros r Q Ir P Ih B. exact (proj2 (tick_releases_best c s now r H N Q Ir P Ih B)).
+Qed.
+Print Assumptions C10_plugin_pass_releases.
+
+(* no strand outside the two findings, per queue instance: on the instance's
+   own history (the sized schedule of C10_plugin_instance_is_queue_run) the
+   exact side conditions exclude every pass-over *)
+Theorem C10_plugin_holds_outside_findings : forall tv v acts k s,
+  In s (insts (pget k (prun tv v pinit acts))) ->
+  exists t0 l,
+    s = qrun (ccfg k 0) (init (ccfg k 0) t0) l /\
+    Forall (fun qa => exists a, In (PK k a) acts /\ kq_of tv a = Some qa) l /\
+    (Forall (fun qt => no_lost_handoff (ccfg k 0) (snd qt) = true /\ no_barging (ccfg k 0) (snd qt) = true)
+            (qtrace (ccfg k 0) (init (ccfg k 0) t0) l) ->
+     Forall (fun qt => forall id, passed_over (ccfg k 0) (snd qt) id = false)
+            (qtrace (ccfg k 0) (init (ccfg k 0) t0) l) /\
+     strand (ccfg k 0) (map snd (qtrace (ccfg k 0) (init (ccfg k 0) t0) l)) = false /\
+     (forall r, In r (reqs s) -> live r = true -> In (entry_of r) (heap s))).
+Proof.
+  intros tv v acts k s I.
+  destruct (C10_plugin_instance_is_queue_run tv v acts k s I) as [t0 [l [E [_ O]]]].
+  exists t0, l. split; [exact E|]. split; [exact O|]. intro F.
+  destruct (C10_sized_holds_outside_findings (ccfg k 0) t0 l F) as [P S].
+  split; [exact P|]. split; [exact S|]. rewrite E.
+  exact (qrun_HL (ccfg k 0) l (init (ccfg k 0) t0) (GI_init (ccfg k 0) t0) F).
+Qed.
+Print Assumptions C10_plugin_holds_outside_findings.
+
+(* the lifted statements on a concrete plugin history: one remedy called with
+   queue sizes 2, 1, 2; a roll-over releases the better priority *)
+Example C10_plugin_lift_nontrivial :
+  let ka : qkey := (1, 1, 1) in
+  let z := {| hname := [120]; groups := [([97], 0); ([98], 5)] |} in
+  let p2 := {| p_ttl_e := 16; p_qsize := 2; p_status := 429; p_prz := Some z |} in
+  let p1 := {| p_ttl_e := 16; p_qsize := 1; p_status := 503; p_prz := Some z |} in
+  let acts :=
+    [PK ka (KLookup 1 0); PK ka (KEnq 1 p2 [([120], [98])] 0 0);
+     PK ka (KLookup 2 1); PK ka (KEnq 2 p2 [([120], [98])] 1 1); PK ka (KR 2 RPark 1);
+     PK ka (KLookup 3 2); PK ka (KEnq 3 p1 [([120], [97])] 2 2);
+     PK ka (KLookup 4 3); PK ka (KEnq 4 p2 [([120], [97])] 3 3); PK ka (KR 4 RPark 3)] in
+  let ks := pget ka (prun code_ttl Atomic pinit acts) in
+  match insts ks with
+  | [s] => (kcount (insts ks), map eid (parked_entries s), map eid (snd (tick (ccfg ka 0) s second)),
+            map (fun id => pverdict (prun code_ttl Atomic pinit acts) (Some ka) id) [1; 2; 3; 4])
+           = (2, [4; 2], [4], [Some (VNoOp, 0); None; Some (VEarly 503, 2); None])
+  | _ => False
+  end.
+Proof. vm_compute. reflexivity. Qed.
+
+(* ================================================================== *)
+(* The roll-over timer, and "no slot was available".                   *)
+
+(* After every pass the roll-over goroutine sleeps until [next_tick] = the end
+   of the window the pass has just refreshed (suite [timer] compares it with
+   the deadline of the timer the real goroutine re-arms).  With a monotone
+   clock that is the first grid boundary after the instant of the pass: the
+   next pass is due exactly when the next window begins. *)
+Theorem C10_pass_rearms_at_next_boundary : forall c t0 acts,
+  0 < wsize c -> monotone t0 acts = true ->
+  Forall (fun tr => forall now, snd (fst tr) = Tick now ->
+            next_tick (snd tr) = uend c now /\
+            now < next_tick (snd tr) <= now + wsize c /\
+            stale c (snd tr) now = false)
+         (trace c (init c t0) acts).
+Proof.
+  intros c t0 acts W M.
+  pose proof (trace_AT c acts (init c t0) t0 W M (AT_init c t0)) as A.
+  rewrite Forall_forall in *. intros [[s a] s'] I now E. simpl in E. subst a.
+  destruct (A _ I) as [t [At Le]]. simpl in At, Le.
+  pose proof (trace_step _ _ _ _ I) as St. simpl in St.
+  change (exec c s (Tick now)) with (fst (tick c s now)) in St. simpl.
+  unfold next_tick. rewrite St, (tick_wend c s t now W At Le).
+  pose proof (uend_window c now W). split; [reflexivity|]. split; [lia|].
+  unfold stale. rewrite (tick_wend c s t now W At Le). apply Z.ltb_irrefl.
+Qed.
+Print Assumptions C10_pass_rearms_at_next_boundary.
+
+(* what suite [timer] evaluates is [next_tick] along [trace] *)
+Theorem C10_run_ticks_is_trace : forall c s acts,
+  enabled c s acts = true ->
+  run_ticks c s acts = map (fun tr : trans => next_tick (snd tr)) (filter is_tick (trace c s acts)).
+Proof. intros c s acts. apply run_ticks_enabled. Qed.
+Print Assumptions C10_run_ticks_is_trace.
+
+(* Clause "its time-to-live really elapsed while no slot was available for it".
+   Outside the two findings, with a monotone clock, and when no TTL timer is
+   served on a stale window (a TTL deadline at or after a boundary is handled
+   after the pass of that boundary — scheduling assumption, see props
+   `assumptions`): a waiter expires only at an instant whose aligned window
+   has already given away its whole quota. *)
+Theorem C10_expire_only_without_slot_if_pass_first : forall c t0 acts,
+  0 < wsize c -> monotone t0 acts = true ->
+  Forall (fun tr => no_lost_handoff c tr = true /\ no_barging c tr = true /\ ttl_after_pass c tr = true)
+         (trace c (init c t0) acts) ->
+  Forall (fun tr => forall id, expires tr id = true ->
+            quota c <= count_at c (uend c (act_now (snd (fst tr)))) (log (fst (fst tr))))
+         (trace c (init c t0) acts).
+Proof.
+  intros c t0 acts W M F.
+  assert (F2 : Forall (fun tr => no_lost_handoff c tr = true /\ no_barging c tr = true)
+                      (trace c (init c t0) acts)).
+  { eapply Forall_impl; [|exact F]. intros tr (A & B & _). auto. }
+  destruct (trace_GI_exact c acts (init c t0) (GI_init c t0) F2) as [G _].
+  pose proof (trace_AT c acts (init c t0) t0 W M (AT_init c t0)) as A.
+  pose proof (trace_RB c acts (init c t0) (RB_init c t0)) as R.
+  rewrite Forall_forall in *. intros [[s a] s'] I id E.
+  destruct (F _ I) as (_ & _ & T). destruct (G _ I) as (_ & _ & K).
+  destruct (A _ I) as [t [At Le]]. specialize (R _ I). simpl in *.
+  destruct a as [| | |id' now|]; try discriminate.
+  apply andb_prop in E. destruct E as [E _]. apply andb_prop in E. destruct E as [_ Lv].
+  apply live_in_true in Lv. destruct Lv as [r [Fd Lr]]. apply negb_true_iff in T.
+  exact (window_used_up c s t now r W At Le R K T (proj1 (find_In _ _ _ Fd)) Lr).
+Qed.
+Print Assumptions C10_expire_only_without_slot_if_pass_first.
+
+(* the scheduling assumption is needed (and is not one of the two findings): the
+   TTL timer of request 2 (deadline 1001) is served before the pass of the
+   boundary 1000 — it expires although no slot of [1000,2000) is taken and
+   nobody is ahead; no step violates no_lost_handoff / no_barging, no step
+   passes it over in the sense of [passed_over] (no pass, no newcomer) *)
+Example C10_ttl_before_pass :
+  let acts := [EnqLocked 1 0 0 5000 0; EnqLocked 2 0 1 1000 1; Park 2 1; Ttl 2 1001; Return 2 1001; Tick 1001] in
+  let tr := trace cfg1 (init cfg1 0) acts in
+  (monotone 0 acts, forallb (fun t => no_lost_handoff cfg1 t && no_barging cfg1 t) tr,
+   map (ttl_after_pass cfg1) tr, strand cfg1 tr,
+   count_at cfg1 2000 (log (run cfg1 (init cfg1 0) acts)),
+   map result_of (reqs (run cfg1 (init cfg1 0) acts))) =
+  (true, true, [true; true; true; false; true; true], false, 0,
+   [(1, Some (true, 0)); (2, Some (false, 1001))]).
+Proof. vm_compute. reflexivity. Qed.
+
+(* satisfiable: the history of C10_holds_outside_nontrivial (roll-over, release
+   in priority order, refusal, genuine expiry at 1501 in the window [1000,2000)
+   whose only slot went to request 3) *)
+Example C10_expire_without_slot_nontrivial :
+  let c := {| quota := 1; wsize := 1000; qsize := 2 |} in
+  let acts := [EnqLocked 1 0 0 500 0; EnqLocked 2 1 1 1500 1; Park 2 1; EnqLocked 3 0 2 1500 2; Park 3 2;
+               EnqLocked 4 0 3 1500 3; Tick 1000; Return 3 1000; Ttl 2 1501; Return 2 1501] in
+  (monotone 0 acts,
+   forallb (fun tr => no_lost_handoff c tr && no_barging c tr && ttl_after_pass c tr) (trace c (init c 0) acts),
+   existsb (fun tr => expires tr 2) (trace c (init c 0) acts),
+   count_at c 2000 (log (run c (init c 0) acts)),
+   run_ticks c (init c 0) acts) = (true, true, true, 1, [2000]).
+Proof. vm_compute. reflexivity. Qed.
